@@ -97,7 +97,13 @@ def specAbs0 (smp : String) (dw dh : Nat) (u v : UInt32) (impl : String) : Optio
       match qu, qv with
       | some a, some b => nonEmpty && Spec.Tex.inRange dw a && Spec.Tex.inRange dh b
       | _, _ => false
-  if !applicable then none
+  -- a repeating sampler must not come into existence for a non-power-of-two texture (of any size)
+  if smp == "rep" && !pot then
+    let cls := implPanicClass impl
+    if cls == "pot-w" || cls == "pot-h" then none
+    else some (if dw > 16777216 || dh > 16777216 then "repeat-new-accepts-non-pot-wide" else "repeat-new-accepts-non-pot",
+      s!"SamplerRepeatPot::new accepted a {dw}x{dh} texture: {impl}")
+  else if !applicable then none
   else if impl.startsWith "panic:" then
     some (name ++ "-panics", s!"{name} sampler panicked: {impl}")
   else
@@ -165,10 +171,12 @@ def handle (case impl : List String) : Verdict :=
       | .panic m =>
         let v := Verdict.ok (tags ++ ["panic"])
         let v := v.withDiff (implPanicClass (impl.getD 0 "") != modelPanicClass m) s!"model panics: {m}"
-        v.withSpec (pot && (impl.getD 0 "").startsWith "panic:") "repeat-new-panics" "SamplerRepeatPot::new panicked for power-of-two dimensions"
+        let v := v.withSpec (pot && (impl.getD 0 "").startsWith "panic:") "repeat-new-panics" "SamplerRepeatPot::new panicked for power-of-two dimensions"
+        v.withSpec (!pot && !(impl.getD 0 "").startsWith "panic:") "repeat-new-accepts-non-pot" s!"new accepted {dw}x{dh}: {impl}"
       | .ok s =>
         let v := Verdict.ok tags
         let v := v.withDiff (impl != [toString s.wMask, toString s.hMask]) s!"model {s.wMask} {s.hMask}"
+        let v := v.withSpec (!pot && !(impl.getD 0 "").startsWith "panic:") "repeat-new-accepts-non-pot" s!"new accepted {dw}x{dh}: {impl}"
         v.withSpec (pot && impl != [toString (dw - 1), toString (dh - 1)]) "repeat-new-mask" s!"masks {impl} for {dw}x{dh}"
     | _, _ => bad "new"
   | ["abs", smp, kind, dw, dh, u, v] =>
